@@ -6,7 +6,8 @@ RULE = ('one case = 2 real nodes over loopback RPC; the sender\'s keyspace state
         'Malformed stream: a peer answering GetState with a CRC-valid frame whose nested bytes are empty / truncated / garbage, whose envelope points outside the message or declares a length of 1 GiB (D24), or whose root is misplaced by one stray byte in front of the honest reply (D35), must produce an error - not a crash. non-trivial = the transferred state has both live entries and tombstones; distinct by hash')
 ASSUMPTIONS = ['rkyv round trip of the set is a codec assumption for the Lean model; memory safety and alignment of the zero-copy access are runtime facts, observed (debug build: misaligned access panics) not proved']
 TRUSTED_BASE = ['correspondence: dcharness (real ReplicationService::on_message(GetState) + ReplicationClient::get_state over loopback) vs dcdriver (Datacake.Cluster model: the state is transferred unchanged)']
-THEOREM_NOTE = 'observational equivalence of set states (Props/C19.lean: obs_equiv_of_equal_maps)'
+THEOREM_NOTE = 'observational equivalence of set states (Props/C19.lean: obs_equiv_of_equal_maps); the envelope of the GetState reply at byte level (Model/Envelope.lean; Props/C19b: readEnv_archiveEnv, getState_exact, bogus_len_refused, forward_ptr_refused, misplaced_envelope_refused)'
+LEAN_MODULES = ['C19', 'C19b']
 JOBS = 6
 SHRINK = False
 
@@ -49,6 +50,12 @@ def gen_case(rng, idx, big):
         # the ENVELOPE around the state: the byte-exact honest reply with the declared length / the position of the nested bytes
         # changed and the CRC recomputed (a peer of another version, a buggy or a hostile one: the CRC only guards the wire)
         lines.append('badenvelope 1 %s %d' % (rng.choice(['ok', 'len', 'len', 'ptr', 'shift', 'shift']), rng.choice([0, 1, 5, 40])))
+    if rng.chance(2, 3):
+        # the envelope itself, byte for byte against the model (Model/Envelope.lean): nested byte strings of every length class
+        # (padding 0-7 in front of the root), stamps at the ends of the u64 range
+        n = rng.choice([0, 1, 7, 8, 9, 15, 16, 17, rng.below(64), rng.below(3000), rng.choice([4096, 65535, 65536, 100001])])
+        lines.append('envelope-bytes %d %d %s' % (rng.choice([0, 1, 2 ** 64 - 1, rng.below(2 ** 64)]), rng.choice([0, 2 ** 63, 2 ** 64 - 1, rng.below(2 ** 64)]),
+                                                   bytes(rng.below(256) for _ in range(n)).hex() or '-'))
     lines.append('end')
     return lines
 
